@@ -9,7 +9,7 @@ COQ_PROPS = 'props/C16.v'
 PARTIAL = ('proved for all shapes/ranks/histories over abstract elements, for the code as repaired by the four C16 fixes: '
            'broadcasting index map; lifting of every binary ufunc (np.arctan2 in both operand orders and under broadcasting, '
            'comparisons, scalar-array); no object ever holds a remembered broadcast shape; unary ops / views / copy / result with '
-           'the operand\'s own shape after any history; full history independence of every operation; pickle round trip. '
+           'the operand\'s own shape after any history (copy for every memory order); full history independence of every operation; pickle round trip; NumPy views as operands. '
            'REFUTED (witness replayed, known finding): sensitivity / u_component / core.atan2 do not broadcast. Not modelled: '
            'structured arrays, slicing/views sharing memory, matmul/dot, reductions, out= kwargs, core.* wrappers translating '
            'AttributeError; element-level scalar semantics is the scalar-operation table (C01-C06 cover it)')
@@ -36,7 +36,8 @@ def bcast_terms(rng, n):
 def correspondence(rng, tier):
     n = 400 if tier == 'quick' else 15000
     progs = []; terms = []; dist = {'mode': {}, 'ops': {}, 'rank': {}, 'outcome': {}}
-    notes = {'broadcast': 0, 'stale_read': 0, 'read_after_broadcast': 0, 'exn': 0, 'steps': 0, 'cells': 0}
+    notes = {'broadcast': 0, 'stale_read': 0, 'read_after_broadcast': 0, 'exn': 0, 'steps': 0, 'cells': 0,
+             'noncontiguous_operand': 0, 'raising_broadcast': 0, 'read_after_raise': 0}
     ambiguous = 0; distinct = set()
     while len(progs) < n:
         mode = 'sym' if rng.random() < 0.5 else 'real'
@@ -53,7 +54,7 @@ def correspondence(rng, tier):
         for x, _ in impl.expected:
             dist['outcome'][x[0] if x[0] != 'XExn' else x[1]] = dist['outcome'].get(x[0] if x[0] != 'XExn' else x[1], 0) + 1
         for k in notes: notes[k] += impl.notes[k]
-        if impl.notes['broadcast'] and impl.notes['read_after_broadcast']:
+        if (impl.notes['broadcast'] and impl.notes['read_after_broadcast']) or impl.notes['noncontiguous_operand'] or impl.notes['read_after_raise']:
             distinct.add(json.dumps([[o['op'], o.get('f')] for o in prog['ops']] + [o['shape'] for o in prog['ops'] if o['op'] == 'new']))
     bterms, bmeta = bcast_terms(rng, 200 if tier == 'quick' else 4000)
     values, errors = coq_eval_cases('C16', HEADER, terms + bterms, per_file=40 if tier == 'quick' else 200)
@@ -71,8 +72,12 @@ def correspondence(rng, tier):
             'distribution': dist,
             'rule': 'random histories of 6-14 operations on 2-4 shared array objects (rank 0-3, dims 0-4, <= 24 elements, '
                     'size-1 axes, incompatible shapes, scalars, plain ndarrays/lists); half with symbolic tracer elements, '
-                    'half with ureal/ucomplex/float/int/complex elements; non-trivial = has a broadcasting binary op and a '
-                    'later unary op / view / copy / result / sensitivity on the object that dispatched it; plus direct NumPy-vs-model broadcasting cases',
+                    'half with ureal/ucomplex/float/int/complex elements; 10% of the steps make a NumPy view or re-laid-out copy '
+                    '(T, transpose, swapaxes, reversed / strided slices, Fortran order, broadcast_to) that later steps use as operand; '
+                    '30% of the arrays hold an element on which scalar operations raise or branch (None, 0, negative, nan, inf); the generator returns to '
+                    'objects whose dispatched ufunc raised, to views, and to dispatchers of broadcasting ufuncs; non-trivial = a read of '
+                    'the dispatcher after a broadcasting op, or an operation on a non-C-contiguous operand, or an operation on an object '
+                    'whose dispatched binary ufunc raised; plus direct NumPy-vs-model broadcasting cases',
             'samples': progs[:2]}
 
 
@@ -113,6 +118,13 @@ def _ideal(op, heap, scalars, labels):
     if k == 'label': return ('lbl', fingerprint(labels[op['i']]))
     if k == 'pickle':
         a = heap[op['i']]; return ('arr', 'KU', [int(d) for d in np.shape(a)], [fingerprint(c) for c in cells_of(a)])
+    if k == 'view':
+        a = heap[op['i']]; cs = cells_of(a)
+        try:
+            s, m = view_index_map([int(d) for d in np.shape(a)], op['how'])
+        except Exception as ex:
+            return ('exn', cexn(type(ex).__name__))
+        return ('arr', kind_of(a), s, [fingerprint(cs[j]) for j in m])
     if k == 'result':
         a = heap[op['i']]; lab = op['labels']
         if lab is None: return lift1(F_RES1, op['i'], 'KU')
@@ -151,7 +163,7 @@ def check_program(prog, ctx=16, known_hits=None):
         # bookkeeping of labels and dispatch
         if len(impl.heap) > n0:
             # copy() keeps the label; results, views and unpickled arrays have none
-            labels.append(op.get('label') if op['op'] == 'new' else labels[op['i']] if op['op'] == 'copy' else None)
+            labels.append(op.get('label') if op['op'] == 'new' else labels[op['i']] if op['op'] in ('copy', 'view') else None)
         known = None
         # the only listed finding left: sensitivity / u_component / core.atan2 with a second operand of another shape
         if op['op'] == 'zip':
@@ -262,3 +274,18 @@ def kf_C16_pickle():
         except AttributeError as ex:
             bad.append('%s -> AttributeError (%s)' % (name, ex))
     return bool(bad), 'unpickled array: ' + ('; '.join(bad) if bad else 'views, label and copy work')
+
+def kf_C16_copy_order():
+    """copy(order=o) must have the operand's shape and, at every index, +element -- for every memory order"""
+    new_context(16)
+    a = _mk((2, 3), 1.0)
+    bad = []
+    for src, name in ((a, 'a'), (a.T, 'a.T')):
+        for o in ('C', 'F', 'A', 'K'):
+            try:
+                r = src.copy(order=o)
+            except Exception as ex:
+                bad.append("%s.copy(order=%r) raises %s" % (name, o, type(ex).__name__)); continue
+            if r.shape != src.shape or any(r[i].x != src[i].x or r[i].u != src[i].u for i in np.ndindex(src.shape)):
+                bad.append("%s.copy(order=%r).x = %r, operand %r" % (name, o, r.x.tolist(), src.x.tolist()))
+    return bool(bad), '; '.join(bad) if bad else 'copy(order=C|F|A|K) keeps shape and logical contents'
